@@ -9,7 +9,7 @@ from .sorts import SV, Ty, INT, BOOL, REAL, XREAL, STR, NONE, OBJ, REF, SEQ, TUP
 from .engine import (Unsupported, Raise, mk_int, mk_bool, mk_real, mk_str, mk_none, NUMERIC,
                      EXC_PARENTS, exc_is)
 
-SKIP_CALLS = {("logger", "debug"), ("logger", "info"), ("logger", "log"), ("logger", "warning"),
+SKIP_CALLS = {("time", "sleep"), ("logger", "debug"), ("logger", "info"), ("logger", "log"), ("logger", "warning"),
               ("logger", "error"), ("logger", "critical"), ("traceback", "print_exc")}
 
 
@@ -901,7 +901,17 @@ def b_round(eng, s, a, k, node):
     raise Unsupported("round")
 
 
-BUILTINS = {"float": b_float, "int": b_int, "bool": b_bool, "len": b_len, "max": b_minmax("max"),
+def b_ord(eng, s, a, k, node):
+    v = a[0]
+    if v.ty.kind != "str":
+        raise Unsupported("ord(%r)" % (v.ty,))
+    f = eng.reg.ufun("ord_chr", z3.StringSort(), z3.IntSort())
+    r = f(v.t)
+    s.assume(z3.And(r >= 0, r <= 1114111))
+    return eng.implicit(s, "TypeError", z3.Length(v.t) != 1, lambda s2: [(s2, SV(INT, r))])
+
+
+BUILTINS = {"ord": b_ord, "float": b_float, "int": b_int, "bool": b_bool, "len": b_len, "max": b_minmax("max"),
             "min": b_minmax("min"), "abs": b_abs, "str": b_str, "list": b_list, "dict": b_dict,
             "hasattr": b_hasattr, "type": b_type, "hash": b_hash, "round": b_round, "repr": b_str}
 
@@ -1356,10 +1366,14 @@ def inline_call(eng, f, recv, args, kwargs, st):
 
 def resolve_path(eng, path, env, st):
     """'self._x' / 'event._y' / 'self.*' -> list of (ref SV, cls, fieldname)."""
-    obj, fld = path.split(".", 1)
-    if obj not in env:
+    obj, fld = path.rsplit(".", 1)
+    if not obj.isidentifier():
+        # chained path self._random.g_S : the owner object is evaluated in the given state
+        o = eng.spec_value(obj, st, env=env)
+    elif obj not in env:
         raise Unsupported("modifies path %s: unknown object" % path)
-    o = env[obj]
+    else:
+        o = env[obj]
     if o.ty.kind != "ref":
         raise Unsupported("modifies path %s on %r" % (path, o.ty))
     if fld == "*":
@@ -1400,6 +1414,8 @@ def havoc_paths(eng, paths, env, st):
 
 def apply_contract(eng, c, f, recv, args, kwargs, st):
     k = eng.site("call:" + c.qual)
+    if c.effects != "deterministic":
+        eng.effects_used.add("%s: %s" % (c.qual, c.effects))
     env = bind_params(eng, f, recv, args, kwargs, st, c)
     # coerce arguments to the contract's parameter types; failing coercions are call-site
     # precondition obligations (type part of the precondition)
